@@ -95,7 +95,10 @@ fn judge_time(prop: &str, known: &[KnownEntry], t: &TimeSpec, self_ctx: &Ctx, is
     findings.extend(ev.findings.into_iter().filter(|f| crate::certeval::relevant(prop, f)));
     // CRL 1: thisUpdate = t, nextUpdate = t + 1 day, revocationDate = t
     let day = |t: &TimeSpec, d: i64| TimeSpec { unix: t.unix + d * 86400, ..*t };
-    for (this, next) in [(*t, day(t, 1)), (day(t, -1), *t)] {
+    // ... and with a nextUpdate one second later given in UTC (near the end of the calendar the caller's own offset
+    // cannot hold a later local time, but the instant exists)
+    let next_utc = TimeSpec { unix: t.unix + 1, nanos: 0, offset: 0 };
+    for (this, next) in [(*t, day(t, 1)), (day(t, -1), *t), (*t, next_utc)] {
         if !(0..=9999).contains(&this.utc_year()) || !(0..=9999).contains(&next.utc_year()) {
             continue;
         }
